@@ -209,6 +209,9 @@ UNITS['c12'] = {
     'mutants': [
         ('cache_stores_when_bypassed', 'if !self.no_cache {', 'if true {', ['C12.cache']),
         ('lookup_ignores_the_bypass', 'if self.no_cache { return None; }', '', ['C12.lookup']),
+        ('memoize_stores_under_another_cursor', 'c.cache(t, s, r.clone());', 'c.cache(t, Cursor { pos: 0 }, r.clone());', ['C12.memoize']),
+        ('memoize_does_not_store', 'c.cache(t, s, r.clone());', '', ['C12.memoize']),
+        ('memoize_stores_before_running', 'let r = call_production(p, c, s);\n        c.cache(t, s, r.clone());', 'let r0 = c.lookup(t, s); let r = call_production(p, c, s);\n        if let Some(x) = r0 { c.cache(t, s, x); }', ['C12.memoize']),
     ],
 }
 
@@ -503,16 +506,20 @@ PROPS = {
         'units': ['c12'],
         'level': 'other',
         'obligation_prefixes': ['C12.'],
-        'technique': 'Verus contracts on the real memo-table functions of the parser context: Context::{cache, lookup, without_cache} (unit c12)',
+        'technique': 'Verus contracts on the real memo-table functions of the parser context, Context::{cache, lookup, without_cache}, and on the real memoize relative to an assumed contract of the productions it calls (unit c12)',
         'level_text': 'Deductive proof (Verus/Z3) of the function-level half of "memoisation is invisible" only: the memo table is a faithful map — `cache` stores a result under exactly (cursor, production tag) and changes nothing else, '
                       '`lookup` returns exactly what is stored under that key and never changes the table, and with the bypass switch (`without_cache`) nothing is stored and every lookup misses. '
                       'That a production returns the same result and leaves the same tree whether or not its result was taken from the table (which needs the productions to be functions of (context, cursor)), '
-                      'and the linear bound on parser work, are not decided: `memoize` takes a function pointer (unsupported by Verus), the productions are closure combinators: level other.',
+                      'and the linear bound on parser work, are not decided for the productions themselves (closure combinators). '
+                      'The real `memoize` is under contract relative to an ASSUMED contract of the production it calls through its function pointer (an opaque handle; the call is a trusted shim): '
+                      'given a coherent table (every entry is what its production answers at its cursor) and the tag of the production, memoize returns what the production answers at the cursor — hit or miss, cache on or bypassed —, '
+                      'keeps the table coherent, forgets no entry, and with the cache on leaves the answer in the table (so a production runs at most once per (cursor, tag)). '
+                      'That every production satisfies the assumed contract (is a function of (tag, cursor), which is where the tree side effects live) is not decided: level other.',
         'level_note': 'ASSUMED: `HashMap<(Cursor, Tag), ParserResult>` as a trusted map shim (insert / get+cloned), ParserResult opaque and cloned to an equal value, the hit counter (a Cell) as an unspecified shim that does not overflow. Rule R5 (`mut self`).',
         'design_ref': 'DESIGN.md section 12.50',
         'explanation': 'Listed not applicable in the plan (closure combinators, Kani did not finish). The three functions that read and write the memo table are plain functions and carry the table-level half of the property.',
-        'assumptions': ['the HashMap shim', 'ParserResult::clone yields an equal value'],
-        'not_decided': ['parsing with the table gives the tree and errors that parsing without it gives (needs memoize and the productions)', 'the amount of parser work grows at most linearly with the number of tokens'],
+        'assumptions': ['the HashMap shim', 'ParserResult::clone yields an equal value', 'every production called through the function pointer satisfies call_production\'s contract (answers prod_at(tag, cursor), keeps the table coherent, forgets nothing)', 'the tag passed to memoize is the tag of the production passed with it (precondition tag_of(p) == t; the call sites in oal-syntax are not under contract)'],
+        'not_decided': ['parsing with the table gives the tree and errors that parsing without it gives (needs the productions to satisfy the assumed contract)', 'the amount of parser work grows at most linearly with the number of tokens'],
     },
     'C10': {
         'units': ['c10', 'c10j'],
